@@ -23,6 +23,7 @@ META = {
         "0-4 initial children, in 30 % of the cases next to a second, unrelated FactoryPool that releases its children). kind=weak: children that nobody but the pool references (the harness keeps weak references and the last demand written to each), with and without a garbage collection per cycle. Non-trivial = at least one adjustment that spawned or released a child."
     ),
     "assumptions": [
+        "until a demand is written, the requested demand of a pool built from children is the sum of those children's demands (what FactoryPool.__init__ computes; the property speaks of 'the requested demand' without saying what it is before the first write)",
         "factory children start with positive demand and store the demand they are given (documented contract)",
         "demands are integers or dyadic fractions, so sums are exact",
         "hatchery/mortuary membership is read from the pool's two child sets (anchored state)",
@@ -89,6 +90,12 @@ def execute(case, result):
         other.demand = 0
         result.count("cases_with_a_second_factory_pool")
     everyone = list(initial)  # strong references: the mortuary only holds weak ones
+    built_with = sum(d for d, _ in case["initial"])
+    if initial and any(d != s for d, s in case["initial"]):
+        result.count("pools_built_from_children_whose_supply_differs_from_their_demand")
+    if pool.demand != built_with:
+        return [("a pool built from children demanding %r reports %r as the requested demand before anything was written (their supplies: %r)"
+                 % ([d for d, _ in case["initial"]], pool.demand, [s for _, s in case["initial"]]), None)]
     if not hasattr(pool, "_hatchery") or not hasattr(pool, "_mortuary"):
         result.inconc("FactoryPool no longer exposes _hatchery/_mortuary; the monitor cannot observe membership")
         return []
@@ -322,6 +329,6 @@ def run_shard(spec):
 
 def finish(total, tier):
     for name in ("adjustments_checked", "adjustments_grew", "adjustments_released_demand", "adjustments_shrink_branch",
-                 "aggregations_checked", "exhaustive_histories", "adjustments_with_initial_children_without_demand", "cases_with_a_second_factory_pool", "adjustments_with_children_only_the_pool_holds"):
+                 "aggregations_checked", "exhaustive_histories", "adjustments_with_initial_children_without_demand", "pools_built_from_children_whose_supply_differs_from_their_demand", "cases_with_a_second_factory_pool", "adjustments_with_children_only_the_pool_holds"):
         if not total.counters.get(name) and not total.violations:
             total.inconc("monitor never observed: " + name)
